@@ -213,6 +213,9 @@ def require_ok(res, what):
 # Batch trace validation
 # ---------------------------------------------------------------------------
 
+_VAL_CALLS = 0
+
+
 def _validate_one(args):
     module, cfg, path, idx, timeout, deque = args
     r = run_tlc(module, cfg, workers=1, env={"TRACE_FILE": path}, timeout=timeout, want_cases=False,
@@ -236,10 +239,12 @@ def validate_traces(module, cfg, traces, chunk=None, timeout=900, deque=False, j
         chunk = max(1, min(4000, (len(traces) + jobs - 1) // jobs))
     d = subdir("traces-" + module)
     tasks = []
+    global _VAL_CALLS
+    _VAL_CALLS += 1
     for i in range(0, len(traces), chunk):
-        path = os.path.join(d, "batch-%d-%d.json" % (os.getpid(), i))
+        path = os.path.join(d, "batch-%d-%d-%d.json" % (os.getpid(), _VAL_CALLS, i))
         with open(path, "w") as f:
-            json.dump(traces[i:i + chunk], f, separators=(",", ":"))
+            f.write(json.dumps(traces[i:i + chunk], separators=(",", ":")))
         tasks.append((module, cfg, path, i, timeout, deque))
     rejected, ntr, nev, states, trans = [], 0, 0, 0, 0
     with concurrent.futures.ThreadPoolExecutor(max_workers=jobs) as ex:
